@@ -42,10 +42,15 @@ def val_tokens(v):
             return ['b' + enc_str(v.decode('utf-8'))]
         except UnicodeDecodeError:
             raise OutOfUniverse(repr(v))
-    if t in (list, tuple, set, frozenset):
-        out = [{list: 'L', tuple: 'U', set: 'S', frozenset: 'Z'}[t] + str(len(v))]
+    if t in (list, tuple):
+        out = [{list: 'L', tuple: 'U'}[t] + str(len(v))]
         for x in v:
             out += val_tokens(x)
+        return out
+    if t in (set, frozenset):
+        out = [{set: 'S', frozenset: 'Z'}[t] + str(len(v))]
+        for toks in sorted((val_tokens(x) for x in v), key=lambda ts: ' '.join(ts)):      # canonical member order
+            out += toks
         return out
     if t is dict:
         out = ['D%d' % len(v)]
